@@ -1,2 +1,116 @@
-def choice_farthest(rep, tier):
+"""C09 d: farthest-failure selection in Choice.
+
+The emitted failure epilogue only *compares* positions (<, <=) and copies them, so evaluating the
+emitted skeleton over every weak ordering of the options' failure positions (ranks relative to
+the entry position) is exhaustive for that arity.  The evaluator below interprets exactly the
+statement forms the Choice skeleton uses; anything else is exit 2."""
+import ast
+import itertools
+
+from .common import Finding, AnalysisError, Unsupported
+from . import skeleton as SK
+from . import flow as F
+
+
+class Brk(Exception):
     pass
+
+
+def ev(e, env):
+    if isinstance(e, ast.Name):
+        if e.id.startswith('_raise_error'):
+            return 'ERRSELF'
+        if e.id not in env:
+            raise AnalysisError(f'farthest: read of unassigned {e.id}')
+        return env[e.id]
+    if isinstance(e, ast.Constant):
+        return e.value
+    if isinstance(e, ast.UnaryOp) and isinstance(e.op, ast.Not):
+        return not ev(e.operand, env)
+    if isinstance(e, ast.BoolOp):
+        vals = [ev(v, env) for v in e.values]
+        return all(vals) if isinstance(e.op, ast.And) else any(vals)
+    if isinstance(e, ast.Compare) and len(e.ops) == 1:
+        l, r = ev(e.left, env), ev(e.comparators[0], env)
+        op = type(e.ops[0])
+        table = {ast.Lt: l < r, ast.LtE: l <= r, ast.Gt: l > r, ast.GtE: l >= r, ast.Eq: l == r, ast.NotEq: l != r}
+        if op not in table:
+            raise Unsupported('comparison in Choice skeleton')
+        return table[op]
+    raise Unsupported(f'expression {type(e).__name__} in Choice skeleton')
+
+
+def run_block(stmts, env, outcome):
+    for st in stmts:
+        if F.is_child_marker(st):
+            slot = st.value.args[0].value
+            ok, p = outcome[slot]
+            env['_status'] = ok
+            env['_result'] = ('OK' if ok else 'ERR', slot)
+            env['_pos'] = p
+        elif isinstance(st, ast.Assign):
+            v = ev(st.value, env)
+            for t in st.targets:
+                if not isinstance(t, ast.Name):
+                    raise Unsupported('store target in Choice skeleton')
+                env[t.id] = v
+        elif isinstance(st, ast.If):
+            run_block(st.body if ev(st.test, env) else st.orelse, env, outcome)
+        elif isinstance(st, ast.While):
+            try:
+                n = 0
+                while ev(st.test, env):
+                    n += 1
+                    if n > 50:
+                        raise AnalysisError('farthest: loop does not terminate')
+                    run_block(st.body, env, outcome)
+            except Brk:
+                pass
+        elif isinstance(st, ast.Break):
+            raise Brk()
+        elif isinstance(st, (ast.Pass, ast.Expr)):
+            pass
+        else:
+            raise Unsupported(f'statement {type(st).__name__} in Choice skeleton')
+
+
+def choice_farthest(rep, tier):
+    w = SK.World()
+    maxn = 4 if tier == 'thorough' else 3
+    fail_flags = SK.child_states(w, allow_fail=True)
+    n_cases = 0
+    for n in range(1, maxn + 1):
+        slots = [f'c{i}' for i in range(n)]
+        for kinds in itertools.product(['CP', 'Fail'], repeat=n):
+            ch = {}
+            for s, k in zip(slots, kinds):
+                ch[s] = SK.A(s, 'CP', kind='Fail' if k == 'Fail' else None)
+            cfg = SK.Config('Choice', [ch[s] for s in slots], {}, ch, label=f'Choice:farthest,n={n},{kinds}')
+            b = w.build(cfg)
+            for ranks in itertools.product(range(n + 1), repeat=n):
+                # a Fail option never moves the position
+                pos = [0 if k == 'Fail' else r for r, k in zip(ranks, kinds)]
+                if any(k == 'Fail' and r != 0 for r, k in zip(ranks, kinds)):
+                    continue
+                outcome = {s: (False, p) for s, p in zip(slots, pos)}
+                env = {'_pos': 0, '_result': 'IN', '_status': None}
+                run_block(b.tree.body, env, outcome)
+                n_cases += 1
+                m = max(pos + [0])
+                okpos = env['_pos'] == m and env['_status'] is False
+                attain = [('ERR', s) for s, p in zip(slots, pos) if p == m]
+                okres = env['_result'] in attain or (m == 0 and env['_result'] == 'ERRSELF')
+                # first option winning ties among ordinary options
+                first = next((('ERR', s) for s, p, k in zip(slots, pos, kinds) if p == m and k != 'Fail'), None)
+                fails = [('ERR', s) for s, p, k in zip(slots, pos, kinds) if p == m and k == 'Fail']
+                if m > 0 and first is not None and env['_result'] != first:
+                    okres = False
+                if not (okpos and okres):
+                    rep.add(Finding('FARTHEST', 'Choice', f'n={n}',
+                                    f'Choice with options {kinds} failing at relative positions {pos}: the skeleton '
+                                    f'reports position {env["_pos"]} with error {env["_result"]}; the farthest failure '
+                                    f'is at {m}' + (f' (first reached by {first[1]})' if first else ''),
+                                    'sourcer/expressions/choice.py:Choice._compile', {'skeleton': b.src}))
+                rep.oblige(okpos and okres)
+    rep.count('Choice failure orderings evaluated', n_cases)
+    rep.floor('Choice failure orderings evaluated', n_cases, 80)
